@@ -16,9 +16,9 @@ refill on demand, not an assumption.
      [k, requested when delivered, end_k, block, yield/raise order, disposal, what survives of loader and stream once an
      abandoned generator is dropped - with the cycle collector disabled] are judged by TLC (Trace_Lazy.tla).
 """
-import gc, os, random, threading, time, weakref, multiprocessing as mp
+import gc, io, os, random, shutil, threading, time, weakref, multiprocessing as mp
 from .. import tlc, trace
-from ..common import Verdict, use_repo, SEED
+from ..common import Verdict, use_repo, SEED, BUILD, ensure_dir
 
 ACTIONS = ['Unwind', 'DetEnc', 'Refill', 'ScanStale', 'ScanReady', 'Skip', 'FetchEnd', 'FetchMarker', 'FetchTok', 'ParseDocStart0',
            'ParseDocStart', 'ParseContent', 'ParseDocEnd', 'ApiStep', 'ApiNext', 'Abandon']
@@ -26,15 +26,20 @@ ALLMODES = '{"scan", "parse", "load"}'
 
 
 def design_configs(tier):
-    base = dict(Block=4, MaxKey=3, TermLen=1, MaxTail=1, MaxDocs=2, MaxSize=6, MaxGap=9, Modes=ALLMODES, Variant='"code"')
+    base = dict(Block=4, MaxKey=3, TermLen=1, MaxTail=1, MaxDocs=2, MaxSize=6, MaxGap=9, Modes=ALLMODES, TrackBoundary='FALSE',
+                Variant='"code"')
     if tier == 'quick':
-        return [('b4', base)]
+        return [('b4', base),
+                # what sits at the read boundary (a CR or not) as a dimension of the environment
+                ('b4cr', dict(base, TrackBoundary='TRUE', MaxSize=3, Modes='{"load"}'))]
     return [('b4', dict(base, MaxDocs=3, MaxSize=12, MaxGap=12, MaxKey=4)),
+            ('b4cr', dict(base, TrackBoundary='TRUE')),
             ('b4t2', dict(base, MaxTail=2, MaxSize=8)),
             ('b8', dict(base, Block=8, TermLen=3, MaxTail=3, MaxKey=6, MaxSize=9, MaxGap=17, Modes='{"load", "scan"}'))]
 
 
-NEGATIVE = [('eager', 'H_Order'), ('depeek', 'H_Order'), ('greedy', 'H_ReaderOrder'), ('shadow', 'H_Release')]
+NEGATIVE = [('eager', 'H_Order'), ('depeek', 'H_Order'), ('greedy', 'H_ReaderOrder'), ('shadow', 'H_Release'),
+            ('crjoin', 'H_ReaderOrder')]
 
 
 def run_all(jobs, workers, concurrent):
@@ -200,15 +205,95 @@ def build_stream(rnd, block, ndocs, maxblocks):
 
 
 def to_units(text, ends, bad, form):
+    """the stream in units of its form (characters, or bytes of the encoding) and the offsets converted (one pass)"""
     if form == 'text':
         return text, list(ends), (bad[2] if bad else 0)
     enc, bom = ('utf-8', b'') if form == 'utf-8' else ('utf-16-le', b'\xff\xfe')
-    off = lambda i: len(bom) + len(text[:i].encode(enc))
-    return bom + text.encode(enc), [off(e) for e in ends], (off(bad[2]) if bad else 0)
+    want = sorted(set(ends) | ({bad[2]} if bad else set()))
+    off, pos, j = {}, len(bom), 0
+    for i, ch in enumerate(text):
+        while j < len(want) and want[j] == i:
+            off[i] = pos
+            j += 1
+        o = ord(ch)
+        pos += (1 if o < 0x80 else 2 if o < 0x800 else 3 if o < 0x10000 else 4) if enc == 'utf-8' else (2 if o < 0x10000 else 4)
+    for w in want[j:]:
+        off[w] = pos
+    return bom + text.encode(enc), [off[e] for e in ends], (off[bad[2]] if bad else 0)
+
+
+# ------------------------------------------------------------------------------------------------ record-structured streams
+BREAKS = ['\r\n', '\r', '\n', '\x85', '\u2028']
+WHERE = ['first', 'last', 'char', 'mid']
+COMBOS = [(b_, w_) for b_ in BREAKS for w_ in WHERE if not (len(b_) == 1 and w_ == 'last')]
+
+
+def build_records(block, form, brk, where, nblocks):
+    """fixed-width records, one document each ('--- digits' + break), whose width in units of the stream divides the block
+    size, behind a header line padded so that the SAME unit of every record's line break sits at offset k*block - 1 for
+    every k: the last unit of the first break character ('first': a CR LF pair straddles the boundary), the last unit of
+    the break ('last': the pair ends exactly at it), the unit before the break ('char': control) or a unit inside a
+    multi-unit break character ('mid').  -> (data, ends in units, description) or None if the layout is impossible"""
+    enc = {'text': None, 'utf-8': 'utf-8', 'utf-16-le': 'utf-16-le'}[form]
+    ulen = (lambda x: len(x)) if enc is None else (lambda x: len(x.encode(enc)))
+    bom = 2 if form == 'utf-16-le' else 0
+    for W in (16, 32, 64, 8, 128):
+        if block % W:
+            continue
+        fixed, one = ulen('--- ' + brk), ulen('0')
+        if W <= fixed or (W - fixed) % one:
+            continue
+        nd = (W - fixed) // one
+        s0 = W - ulen(brk)
+        p = {'first': s0 + ulen(brk[0]) - 1, 'last': W - 1, 'char': s0 - 1, 'mid': s0}[where]
+        if where == 'mid' and ulen(brk[0]) == 1:
+            return None
+        hfix, hone = ulen('#' + brk), ulen('x')
+        m = next((m for m in range(0, 2 * W + 2) if (bom + hfix + m * hone + p) % W == (block - 1) % W), None)
+        if m is None:
+            continue
+        header = '#' + 'x' * m + brk
+        H = bom + hfix + m * hone
+        n = max(3, (nblocks * block - H) // W)
+        lo = 10 ** (nd - 1) if nd > 1 else 1
+        text = header + ''.join('--- %0*d%s' % (nd, (lo + i) % (10 ** nd), brk) for i in range(n))
+        data = text if enc is None else (b'\xff\xfe' if bom else b'') + text.encode(enc)
+        ends = [H + W * (i + 1) for i in range(n - 1)] + [len(data)]
+        assert len(data) == H + W * n
+        return data, ends, 'records W=%d header=%d unit@boundary=%s of %r' % (W, H, where, brk)
+    return None
+
+
+# ------------------------------------------------------------------------------------------------ real file objects
+FILEKINDS = ['raw', 'rb', 'text']
+
+
+def open_file(kind, path, enc):
+    if kind == 'raw':
+        return open(path, 'rb', buffering=0)              # io.FileIO
+    if kind == 'rb':
+        return open(path, 'rb')                           # io.BufferedReader
+    return open(path, 'r', encoding=enc, newline='')      # io.TextIOWrapper, no newline translation
+
+
+def file_slack(kind, path, enc, block):
+    """the file object's own read-ahead, measured: the largest distance between the position of the descriptor and the
+    bytes handed out while the file is read in read(block) calls (nothing of PyYAML involved)"""
+    f = open_file(kind, path, enc)
+    fd = f.fileno()
+    total = slack = 0
+    while True:
+        r = f.read(block)
+        if not r:
+            break
+        total += len(r) if isinstance(r, bytes) else len(r.encode(enc, 'surrogatepass'))
+        slack = max(slack, os.lseek(fd, 0, os.SEEK_CUR) - total)
+    f.close()
+    return slack
 
 
 # ------------------------------------------------------------------------------------------------ one observed iteration
-def iterate(yaml, api, be, data, rule, seed, abandon):
+def iterate(yaml, api, be, data, rule, seed, abandon, fileof=None):
     """abandon: None | ('doc', k) after the k-th delivered document | ('item', j) after the j-th yielded item.
     Release is observed by its effect: with the cyclic garbage collector disabled, weak references to the loader and to
     the stream must be dead as soon as the generator has been closed and dropped (reference counting frees what no cycle
@@ -227,7 +312,15 @@ def iterate(yaml, api, be, data, rule, seed, abandon):
     gc.collect()
     gc.disable()
     try:
-        stream = LogStream(data, rule, seed)
+        if fileof is None:
+            stream = LogStream(data, rule, seed)
+            where = lambda: stream.pos
+            nreads = lambda: stream.calls
+        else:               # a real file object: consumption is observed from outside, at the file descriptor
+            stream = open_file(*fileof)
+            fd = os.dup(stream.fileno())
+            where = lambda: os.lseek(fd, 0, os.SEEK_CUR)
+            nreads = where
         sref = weakref.ref(stream)
         gen = getattr(yaml, api)(stream, Loader=L)
         yields, outcome, err = [], 'done', ''
@@ -250,7 +343,7 @@ def iterate(yaml, api, be, data, rule, seed, abandon):
                     elif not isinstance(item, yaml.StreamStartToken):
                         open_doc = True
                 if delivered:
-                    yields.append({'k': len(yields) + 1, 'req': stream.pos})
+                    yields.append({'k': len(yields) + 1, 'req': where()})
                 if abandon is not None and ((abandon[0] == 'doc' and delivered and len(yields) >= abandon[1]) or
                                             (abandon[0] == 'item' and nitems >= abandon[1])):
                     outcome = 'abandoned'
@@ -260,11 +353,14 @@ def iterate(yaml, api, be, data, rule, seed, abandon):
         except Exception as e:
             outcome, err = 'exception', type(e).__name__
         item = None
-        calls_before = stream.calls
+        calls_before = nreads()
         gen.close()
         del gen
-        reads_after = stream.calls - calls_before
-        block, calls = stream.asked, stream.calls
+        reads_after = nreads() - calls_before
+        block, calls = (stream.asked, stream.calls) if fileof is None else (0, 0)
+        if fileof is not None:
+            os.close(fd)
+            keep = stream           # closed by us below; whether the file object dies is not ours to observe then
         del stream
         # the effect of release, cycle collector out of the picture
         alive, held = [], ''
@@ -276,8 +372,11 @@ def iterate(yaml, api, be, data, rule, seed, abandon):
                 held = 'state=%s states=%d' % (getattr(st, '__name__', st), len(getattr(o, 'states', None) or []))
                 del o
                 break
-        if sref() is not None:
+        if fileof is None and sref() is not None:
             alive.append('stream')
+        if fileof is not None:
+            keep.close()
+            del keep
     finally:
         gc.enable()
     del L
@@ -286,14 +385,70 @@ def iterate(yaml, api, be, data, rule, seed, abandon):
             'alive': alive, 'held': held, 'block': block, 'calls': calls}
 
 
+def maxwidth(text, enc):
+    return max([len(ch.encode(enc, 'surrogatepass')) for ch in set(text)] or [1])
+
+
 def work(args):
     seeds, tier, blocks = args
     yaml = use_repo()
     traces, meta = [], []
+    tmp = ensure_dir(os.path.join(BUILD, 'c18_files', str(os.getpid())))
+
+    def record(o, api, be, uends, bad, ubad, block, slack, m):
+        b = {'kind': '-', 'doc': 0, 'at': 0}
+        if bad and api in RAISES[bad[0]]:
+            b = {'kind': 'reader' if bad[0] == 'reader' else 'other', 'doc': bad[1], 'at': ubad}
+        traces.append({'block': block, 'slack': slack, 'api': api, 'be': be, 'ends': uends, 'yields': o['yields'],
+                       'outcome': o['outcome'], 'bad': b, 'disposals': o['disposals'], 'readsAfter': o['readsAfter'],
+                       'alive': o['alive']})
+        meta.append(dict(m, be=be, api=api, ndocs=len(uends), held=o['held'], errclass=o['errclass']))
+
+    def through_file(sd, be, rnd, text, ends, bad, apis, m):
+        """the same stream through a real file object; positions of the descriptor, in bytes"""
+        kind = FILEKINDS[sd % 3]
+        enc = 'utf-16-le' if m.get('form') == 'utf-16-le' else 'utf-8'
+        if isinstance(text, bytes):
+            data, uends, ubad = text, ends, 0
+            maxw = 2 if enc == 'utf-16-le' else 1
+        else:
+            data, uends, ubad = to_units(text, ends, bad, enc)
+            maxw = maxwidth(text, enc)
+        path = os.path.join(tmp, 's%d_%s' % (sd, be))
+        with open(path, 'wb') as f:
+            f.write(data)
+        asked = blocks[be]
+        slack = file_slack(kind, path, enc, asked)
+        block = asked * (maxw if kind == 'text' else 1)       # read(n) of a text file asks for n characters
+        for api in apis:
+            o = iterate(yaml, api, be, None, None, sd, None, fileof=(kind, path, enc))
+            record(o, api, be, uends, bad, ubad, block, slack, dict(m, file=kind, units=len(data), slack=slack))
+        os.remove(path)
+
     for sd in seeds:
         rnd = random.Random(sd)
         for be in ('py', 'c'):
             block = blocks[be]
+            if sd % 4 == 3:
+                # record-structured stream: which unit of the line break sits at every block boundary is enumerated
+                j = sd // 4
+                brk, where = COMBOS[j % len(COMBOS)]
+                form = ['text', 'utf-8', 'utf-16-le'][(j // len(COMBOS) + j) % 3]
+                rule = [('full',), ('chunk', block // 2), ('chunk', block // 4), ('full',)][(j // len(COMBOS)) % 4]
+                r = build_records(block, form, brk, where, 5 if be == 'py' else 4)
+                if r is None:
+                    r = build_records(block, form, brk, 'first', 5 if be == 'py' else 4)
+                data, uends, desc = r
+                m = {'seed': sd, 'form': form, 'rule': list(rule), 'units': len(data), 'bad': None, 'break': brk,
+                     'layout': desc, 'abandon_after': None}
+                full_api = ('scan', 'parse', 'compose_all', 'load_all')[j % 4]
+                for api in ('scan', 'parse', 'compose_all', 'load_all'):
+                    ab = None if api == full_api else ('doc', min(len(uends), 40 + sd % 50))
+                    o = iterate(yaml, api, be, data, rule, sd, ab)
+                    record(o, api, be, uends, None, 0, o['block'], 0, dict(m, abandon_after=list(ab) if ab else None))
+                if j % 2 == 0:
+                    through_file(sd, be, rnd, data, uends, None, [full_api], m)
+                continue
             ndocs = rnd.choice([1, 2, 2, 3, 3, 4, 6, 10, 25, 50])
             maxblocks = rnd.choice([2, 5, 9]) if be == 'py' else rnd.choice([2, 5, 7])
             text, ends, bad = build_stream(rnd, block, ndocs, maxblocks)
@@ -313,6 +468,8 @@ def work(args):
                                ('rand', rnd.choice([50, 3000, block]))])
             if rule[0] == 'chunk' and rule[1] < 64 and len(data) > 30000:
                 rule = ('chunk', 1000)
+            m = {'seed': sd, 'form': form, 'rule': list(rule), 'units': len(data), 'bad': list(bad) if bad else None,
+                 'break': brk, 'text_head': text[:120]}
             apis = ('scan', 'parse', 'compose_all', 'load_all')
             for api in apis:
                 plans = [None]
@@ -322,15 +479,10 @@ def work(args):
                     plans.append(('item', rnd.randint(1, 4 + 6 * len(ends))))
                 for ab in plans:
                     o = iterate(yaml, api, be, data, rule, sd, ab)
-                    b = {'kind': '-', 'doc': 0, 'at': 0}
-                    if bad and api in RAISES[bad[0]]:
-                        b = {'kind': 'reader' if bad[0] == 'reader' else 'other', 'doc': bad[1], 'at': ubad}
-                    traces.append({'block': o['block'], 'api': api, 'be': be, 'ends': uends, 'yields': o['yields'],
-                                   'outcome': o['outcome'], 'bad': b, 'disposals': o['disposals'], 'readsAfter': o['readsAfter'],
-                                   'alive': o['alive']})
-                    meta.append({'seed': sd, 'be': be, 'api': api, 'form': form, 'rule': list(rule), 'ndocs': len(ends),
-                                 'units': len(data), 'bad': list(bad) if bad else None, 'abandon_after': list(ab) if ab else None, 'held': o['held'],
-                                 'errclass': o['errclass'], 'break': brk, 'text_head': text[:120]})
+                    record(o, api, be, uends, bad, ubad, o['block'], 0, dict(m, abandon_after=list(ab) if ab else None))
+            if sd % 2 == 0:          # "the stream" is also a real file: text / buffered / raw, observed at the descriptor
+                through_file(sd, be, rnd, text, ends, bad, rnd.sample(apis, 2), m)
+    shutil.rmtree(tmp, ignore_errors=True)
     return traces, meta
 
 
@@ -343,7 +495,8 @@ def main(tier, replay=None):
     # (a) design check and negative controls
     dc = design_configs(tier)
     jobs = [(n, dict(constants=c, tag='C18_' + n, timeout=3000, heap='5g')) for n, c in dc]
-    jobs += [('neg-' + var, dict(constants=dict(dc[0][1], MaxDocs=2, MaxSize=6, MaxGap=10, MaxTail=1, Variant='"%s"' % var),
+    jobs += [('neg-' + var, dict(constants=dict(dc[0][1], MaxDocs=2, MaxSize=6, MaxGap=10, MaxTail=1, Variant='"%s"' % var,
+                                               TrackBoundary='TRUE' if var == 'crjoin' else 'FALSE'),
                                 tag='C18_neg_' + var, timeout=900, heap='3g', coverage=False)) for var, _ in NEGATIVE]
     # (b) run the real code while TLC works
     blocks = {'py': observed_block(yaml, 'py'), 'c': observed_block(yaml, 'c')}
